@@ -47,6 +47,7 @@ func decodeName(data []byte) (Case, bool) {
 		c.Format = "par1"
 	}
 	c.MainLast = sel&64 != 0 && c.Format == "par2"
+	c.UniName = sel&128 != 0 && c.Format == "par2"
 	switch (sel >> 4) & 3 {
 	case 1:
 		c.Empty = true
